@@ -70,6 +70,7 @@ import hippolyzer.lib.base.templates  # noqa: F401  (fills the registry)
 from hippolyzer.lib.base.helpers import HippoPrettyPrinter
 from hippolyzer.lib.base.message.message import Block
 
+from hmc import introspect as ins
 from hmc import refwire
 from hmc import subfieldgen as sg
 from hmc.core import Part, Run, pmap
@@ -82,6 +83,17 @@ _DST: List[int] = []
 
 
 # ------------------------------------------------------------------------------------------------ registry view
+def _adapter_of(ser: Any) -> Any:
+    """The adapter behind an adapter-style subfield serializer (class attribute ADAPTER, or the instance's one spec member)."""
+    if ser is None:
+        return None
+    if getattr(ser, "ADAPTER", None) is not None:
+        return ser.ADAPTER
+    if isinstance(ser, se.AdapterInstanceSubfieldSerializer):
+        return ins.priv(ser, "_adapter", "spec", default=None)
+    return None
+
+
 class Entry:
     def __init__(self, idx: int, key: Tuple[str, str, str], ser: Any):
         self.idx, self.key, self.ser = idx, key, ser
@@ -104,7 +116,7 @@ class Entry:
             self.kind = "payload"
         else:
             self.kind = "unsupported"
-        self.adapter = getattr(ser, "_adapter", None) or getattr(ser, "ADAPTER", None)
+        self.adapter = _adapter_of(ser)
         self.adapter_kind = type(self.adapter).__name__ if self.adapter is not None else \
             (ser.__name__ if isinstance(ser, type) else type(ser).__name__)
         self.is_date = self.adapter_kind == "DateAdapter"
@@ -199,9 +211,10 @@ def context_values(ent: Entry, thorough: bool) -> List[Optional[int]]:
         for n in range(1 << len(bits)):
             cands.append(sum(b for i, b in enumerate(bits) if n >> i & 1))
     sib = se.SUBFIELD_SERIALIZERS.get((ent.key[0], ent.key[1], ent.ctx_field))
-    cands += sg.adapter_members(getattr(sib, "_adapter", None) or getattr(sib, "ADAPTER", None))
-    cands += sg.adapter_members(ent.adapter)
-    opts = getattr(ent.adapter, "_options", None)
+    cbits = sg.INT_BITS[ent.ctx_wire]
+    cands += sg.adapter_members(_adapter_of(sib), bits=cbits)
+    cands += sg.adapter_members(ent.adapter, bits=sg.INT_BITS.get(ent.wire, 0))
+    opts = ins.priv(ent.adapter, "_options", "spec-dict", default=None) if isinstance(ent.adapter, se.ContextAdapter) else None
     if isinstance(opts, dict):
         cands += [int(k) for k in opts if isinstance(k, int)]
     vals = sorted({c for c in cands if lo <= c <= hi})
@@ -382,7 +395,7 @@ def check_int(acc: Acc, ent: Entry, block: Block, ctxval, raw: int, family: str,
 
 
 def _int_members(ent: Entry) -> List[int]:
-    return sorted(set(sg.adapter_members(ent.adapter)))
+    return sorted(set(sg.adapter_members(ent.adapter, bits=sg.INT_BITS[ent.wire])))
 
 
 def unit_int(ent: Entry) -> dict:
@@ -414,7 +427,7 @@ def date_inputs(ent: Entry) -> List[Tuple[int, str]]:
     transition; 'far-future' = the instant lies in the last day of year 9999 or later; 'subsecond' = raw is not a whole
     number of seconds (multiplier > 1); 'boundary' = the rest."""
     lo, hi = sg.int_range(ent.wire)
-    mult = int(getattr(ent.adapter, "_multiplier", 1))
+    mult = int(ins.priv(ent.adapter, "_multiplier", "int", default=1))
     out = [(r, "boundary") for r in sg.int_alphabet(ent.wire)]
     # the last second of year 9999 / first of year 10000, scaled (only reachable for wide types)
     for t in (253402300799, 253402300800):
@@ -473,11 +486,20 @@ def template_for(ent: Entry, ctxval: Optional[int], dom: sg.Domain) -> Any:
     return getattr(ser, "TEMPLATE", None)
 
 
+_NO_TEMPLATE_GEN: Dict[str, str] = {}  # entries whose spec tree could not be introspected (per process)
+
+
 def own_values(ent: Entry, ctxval, dom: sg.Domain) -> List[Tuple[Any, str]]:
     tmpl = template_for(ent, ctxval, dom)
     vals: List[Tuple[Any, str]] = []
     if tmpl is not None and tmpl is not se.UNSERIALIZABLE:
-        vals = list(dom.variants(tmpl))
+        try:
+            vals = list(dom.variants(tmpl))
+        except (ins.IntrospectionError, sg.UnknownSpec, AttributeError) as e:
+            # the spec tree cannot be walked (renamed internals that no shape/behaviour probe resolves, or a new
+            # combinator): no template-derived values for this entry; tier 2 runs on generic wire-first payloads instead
+            _NO_TEMPLATE_GEN.setdefault(ent.keystr, f"{type(e).__name__}: {e}"[:200])
+            vals = []
     if getattr(ent.ser, "EMPTY_IS_NONE", False):
         vals.insert(1 if vals else 0, (None, "none"))
     return vals
@@ -488,7 +510,7 @@ def adapter_payloads(ent: Entry) -> List[Tuple[bytes, str]]:
     described wire-first per class.  BitmapAdapter(shape): any rows*cols/8 bytes (the pod form -- a list of row byte
     strings -- joins back to exactly these bytes, so each is a payload the serializer can itself produce)."""
     if ent.adapter_kind == "BitmapAdapter":
-        rows, cols = ent.adapter._shape
+        rows, cols = ins.priv(ent.adapter, "_shape", "int-pair")
         n = rows * cols // 8
         return [(bytes((i * 37 + 1) & 0xFF for i in range(n)), "pattern"), (b"\x00" * n, "zeros"), (b"\xff" * n, "ones"),
                 (b"\x01" + b"\x00" * (n - 1), "bit0"), (b"\x00" * (n - 1) + b"\x80", "bitlast"),
@@ -579,10 +601,28 @@ def _is_raw_adapter(ent: Entry) -> bool:
     return ent.adapter is not None and not hasattr(ent.ser, "TEMPLATE") and not hasattr(ent.ser, "TEMPLATES")
 
 
+GENERIC_LENGTHS = (0, 1, 2, 3, 4, 8, 16, 17, 18, 20, 32, 33, 36, 48, 60, 64, 76, 86, 100, 101, 512)
+
+
+def generic_payloads() -> List[Tuple[bytes, str]]:
+    """Wire-first candidates for entries without template-derived values: the library decides which of them it accepts."""
+    out = []
+    for n in GENERIC_LENGTHS:
+        out.append((b"\x00" * n, f"generic-zeros{n}"))
+        if n:
+            out.append((b"\x01" * n, f"generic-ones{n}"))
+            out.append((bytes((i * 37 + 1) & 0xFF for i in range(n)), f"generic-pattern{n}"))
+    return out
+
+
 def _own_payloads(acc: Acc, ent: Entry, block: Block, ctxval, dom: sg.Domain, pick) -> Tuple[List[Tuple[bytes, str]], Optional[str]]:
     """Payloads the serializer itself produces for the variants selected by ``pick(j, tag)``; also the base tag."""
     if _is_raw_adapter(ent):
-        vals = adapter_payloads(ent)
+        try:
+            vals = adapter_payloads(ent)
+        except (ins.IntrospectionError, sg.UnknownSpec, AttributeError) as e:
+            _NO_TEMPLATE_GEN.setdefault(ent.keystr, f"{type(e).__name__}: {e}"[:200])
+            vals = []
         return [x for j, x in enumerate(vals) if pick(j, x[1])], (vals[0][1] if vals else None)
     vals = own_values(ent, ctxval, dom)
     mine = [x for j, x in enumerate(vals) if pick(j, x[1])]
@@ -647,6 +687,8 @@ def tier2_feed(ent: Entry, dom: sg.Domain) -> List[Tuple[Any, bytes, str]]:
         if ent.ctx_field is not None:
             own_b = {p for p, _ in bases.get(ctxval, [])}
             feed += [(ctxval, p, f"cross~{t}") for p, t in cross if p not in own_b]
+        if ent.keystr in _NO_TEMPLATE_GEN:
+            feed += [(ctxval, p, t) for p, t in generic_payloads()]
     return feed
 
 
@@ -903,6 +945,21 @@ def unit_assign(ent: Entry) -> dict:
 
 # ------------------------------------------------------------------------------------------------ driver
 def _work(item) -> dict:
+    """One unit; name-misses of the introspection layer and entries that lost template generation during the unit are
+    shipped back as counters (``introspection_fallback:<what>`` / ``no_template_generation:<key>|<why>``)."""
+    before = dict(ins.FALLBACKS)
+    before_gen = set(_NO_TEMPLATE_GEN)
+    d = _work_unit(item)
+    for k, n in ins.FALLBACKS.items():
+        if n - before.get(k, 0) > 0:
+            d["counters"][f"introspection_fallback:{k}"] = n - before.get(k, 0)
+    for k in _NO_TEMPLATE_GEN:
+        if k not in before_gen:
+            d["counters"][f"no_template_generation:{k}|{_NO_TEMPLATE_GEN[k]}"] = 1
+    return d
+
+
+def _work_unit(item) -> dict:
     kind = item[0]
     if kind == "int":
         return unit_int(_ENTRIES[item[1]])
@@ -981,12 +1038,29 @@ def run(run: Run):
             units.append(("assign", e.idx))
     order = heavy + units
     _worked_samples(run)
+    coord_fallbacks = dict(ins.FALLBACKS)  # the coordinator's own share (registry view, slicing); workers report theirs
+    coord_nogen = dict(_NO_TEMPLATE_GEN)
     for d in pmap(_work, order, run.jobs, chunksize=1):
         run.merge(d)
     dates = [e for e in ents if e.kind == "int" and e.is_date]
     for d in sg.tz_map(unit_date, [(tz, (e.idx, tz)) for e in dates for tz in sg.ZONES], run.jobs):
         run.merge(d)
 
+    fb_names: Dict[str, int] = dict(coord_fallbacks)
+    nogen: Dict[str, str] = dict(coord_nogen)
+    for k in list(run.counters):
+        if k.startswith("introspection_fallback:"):
+            fb_names[k.split(":", 1)[1]] = fb_names.get(k.split(":", 1)[1], 0) + run.counters.pop(k)
+        elif k.startswith("no_template_generation:"):
+            key, _, why = k.split(":", 1)[1].partition("|")
+            nogen.setdefault(key, why)
+            run.counters.pop(k)
+    run.count("introspection_fallbacks", sum(fb_names.values()))
+    run.coverage_extra["introspection_fallbacks"] = {"name_misses_resolved_by_shape_or_probe": dict(sorted(fb_names.items())),
+                                                     "entries_without_template_generation": dict(sorted(nogen.items()))}
+    if nogen:
+        run.notes.append(f"{len(nogen)} entries had no template-derived generation (internals not introspectable); generic wire-first "
+                         f"payloads were used for them: " + ", ".join(sorted(nogen)))
     dead = [e.keystr for e in ents if e.kind == "dead"]
     unsupported = [e.keystr for e in ents if e.kind == "unsupported"]
     for k in unsupported:
